@@ -201,11 +201,10 @@ def main(tier, seed):
     from engine import crosscheck
 
     crosscheck.attach(rep, seed)
-    rep.assumed_contract("core field functions are row-wise: PROVED here for magnet_cuboid_Bfield, dipole_Hfield, triangle_Bfield, check_chirality (real code under the shim, "
-                         "checks/c06_cores.py), also current_circle_Hfield, magnet_cylinder_axial_Bfield, magnet_cylinder_diametral_Hfield with cel / cel_iter / ellipe / ellipk as row-wise stubs, and point_inside; ASSUMED for magnet_cylinder_segment_Hfield (2000 lines of case analysis over el3) "
-                         "and current_polyline_Hfield (obligations not decided by the solvers in time)")
+    rep.assumed_contract("core field functions are row-wise: PROVED here for magnet_cuboid_Bfield, dipole_Hfield, triangle_Bfield, current_polyline_Hfield, check_chirality (real code under the shim, "
+                         "checks/c06_cores.py), also current_circle_Hfield, magnet_cylinder_axial_Bfield, magnet_cylinder_diametral_Hfield with cel / cel_iter / ellipe / ellipk as row-wise stubs, and point_inside; ASSUMED for magnet_cylinder_segment_Hfield (2000 lines of case analysis over el3)")
     rep.assume("cel / el3 / ellipe / ellipk / KD-tree routines row-wise (bounded numeric stand-in only)")
-    rep.explanation = "non-interference of batch-global values per wrapper; trimesh loop invariant; level-2 provenance is a bounded stand-in"
+    rep.explanation = "non-interference of batch-global values per wrapper and core; trimesh loop invariant; level-2 provenance for all path lengths and pixel counts (checks/l2sym.py)"
     names = list(WRAPPERS)
     tasks = [(nm, (lambda r, nm=nm: noninterference(r, nm))) for nm in names]
     from checks import c06_cores
